@@ -34,6 +34,7 @@ Inductive err :=
 | EBlame                       (* a [Cast] blames its subject *)
 | EDivByZero
 | EIndex                       (* array index out of bounds / not a natural number *)
+| EKeyMissing                  (* dictionary key not present (std.record.get) *)
 | EIncomparable                (* == on functions *)
 | EUnmodelled.                 (* behaviour outside the model (e.g. == on arrays) *)
 
@@ -49,6 +50,23 @@ Definition bind {A B} (o : outcome A) (f : A -> outcome B) : outcome B :=
   match o with Ok a => f a | Err e => Err e | OutOfFuel => OutOfFuel end.
 
 (* ------------------------------------------------------------------------ primitive operations *)
+
+(* fields sorted by name (byte order), as record/fields and record/values do *)
+Definition str_leb (a b : string) : bool :=
+  match String.compare a b with Gt => false | _ => true end.
+
+Fixpoint insert_field {A} (x : string * A) (l : list (string * A)) : list (string * A) :=
+  match l with
+  | [] => [x]
+  | y :: l' => if str_leb (fst x) (fst y) then x :: l else y :: insert_field x l'
+  end.
+
+Fixpoint sort_fields {A} (l : list (string * A)) : list (string * A) :=
+  match l with
+  | [] => []
+  | x :: l' => insert_field x (sort_fields l')
+  end.
+
 
 Section Delta.
   Variable ev : thunk -> outcome whnf.
@@ -72,6 +90,14 @@ Section Delta.
   Definition get_arr (m : mode) (t : thunk) (k : list thunk -> outcome whnf) : outcome whnf :=
     match ev t with
     | Ok (VArr ts) => k ts
+    | Ok _ => Err (ETypeErr m)
+    | Err e => Err e
+    | OutOfFuel => OutOfFuel
+    end.
+
+  Definition get_rec (m : mode) (t : thunk) (k : list (string * thunk) -> outcome whnf) : outcome whnf :=
+    match ev t with
+    | Ok (VRec fs) => k fs
     | Ok _ => Err (ETypeErr m)
     | Err e => Err e
     | OutOfFuel => OutOfFuel
@@ -146,6 +172,15 @@ Section Delta.
         get_arr m a (fun ts =>
           Ok (VArr (map (fun t => Thunk m (App (Var "f") (Var "x")) [("f", f); ("x", t)]) ts)))
     | PEq, [a; b] => bind (ev a) (fun va => bind (ev b) (fun vb => eq_base m va vb))
+    | PRecFields, [a] =>
+        get_rec m a (fun fs => Ok (VArr (map (fun ft => Thunk m (Str (fst ft)) []) (sort_fields fs))))
+    | PRecValues, [a] => get_rec m a (fun fs => Ok (VArr (map snd (sort_fields fs))))
+    | PRecHas, [k; a] =>
+        get_str m k (fun s => get_rec m a (fun fs =>
+          Ok (VBool (match assoc s fs with Some _ => true | None => false end))))
+    | PRecGet, [k; a] =>
+        get_str m k (fun s => get_rec m a (fun fs =>
+          match assoc s fs with Some t => ev t | None => Err EKeyMissing end))
     | _, _ => Err EUnmodelled
     end.
 End Delta.
@@ -179,6 +214,7 @@ Definition cast_whnf (m : mode) (T : ty) (v : whnf) : outcome whnf :=
       if forallb (fun fe => existsb (String.eqb (fst fe)) (rows_fields r)) fs
       then match wrap_fields m r fs with Some fs' => Ok (VRec fs') | None => Err EBlame end
       else Err EBlame
+  | TDict T', VRec fs => Ok (VRec (map (fun ft => (fst ft, wrap m T' (snd ft))) fs))
   | TFun _ _, _ | TVar _, _ | TForall _, _ => Err EUnmodelled
   | _, _ => Err EBlame
   end.
